@@ -193,6 +193,9 @@ func (ws *GetRight) Get(ctx context.Context, proxy string,
 	reader := io.Reader(r.Body)
 	if l > length {
 		reader = io.LimitReader(reader, length)
+	} else {
+		// the body may be longer than what the headers announce
+		reader = io.LimitReader(reader, l)
 	}
 
 	n, err := io.Copy(w, reader)
